@@ -18,6 +18,9 @@ pub enum Op {
     Read { addr: u16 },
     /// PUSH BC with SP = addr (writes addr-1, addr-2)
     Push { sp: u16, val: u16 },
+    /// the host supplies another ROM set in the middle of the history (not a paging write: the ROM
+    /// selected by the latch stays selected, now with the new images)
+    LoadRom { seed: u64 },
 }
 
 #[derive(Clone, Debug, Serialize, Deserialize)]
@@ -124,6 +127,16 @@ pub fn check(c: &Case, rec: &mut Rec) -> Result<(), String> {
                 mach::step_over(&mut e, 1)?;
                 m.write(sp.wrapping_sub(1), (*val >> 8) as u8);
                 m.write(sp.wrapping_sub(2), *val as u8);
+            }
+            Op::LoadRom { seed } => {
+                let n = if c.machine == Machine::K48 { 1 } else { 2 };
+                let pages: Vec<Vec<u8>> = (0..n).map(|i| pattern(*seed, 200 + i, mach::PAGE)).collect();
+                e.load_rom(MemRomSet { pages: pages.clone().into() }).map_err(|err| format!("op {}: load_rom failed: {:?}", k, err))?;
+                m.rom = pages;
+                rec.class("rom-set-reloaded-mid-history");
+                if m.latch & 0x10 != 0 {
+                    rec.class("rom-set-reloaded-with-rom-1-selected");
+                }
             }
             Op::Read { addr } => {
                 mach::poke_bytes(&mut e, &mut m, STUB, &[0x7E]);
@@ -255,12 +268,19 @@ fn op_strategy() -> impl Strategy<Value = Op> {
     ]
 }
 
+fn op_strategy_with_rom_reload() -> impl Strategy<Value = Op> {
+    prop_oneof![
+        30 => op_strategy(),
+        1 => any::<u64>().prop_map(|seed| Op::LoadRom { seed }),
+    ]
+}
+
 pub fn case_strategy(max_ops: usize) -> impl Strategy<Value = Case> {
     (
         prop_oneof![1 => Just(Machine::K48), 3 => Just(Machine::K128)],
         prop_oneof![2 => Just(None), 1 => any::<u64>().prop_map(Some)],
         any::<u64>(),
-        proptest::collection::vec(op_strategy(), 1..=max_ops),
+        proptest::collection::vec(op_strategy_with_rom_reload(), 1..=max_ops),
     )
         .prop_map(|(machine, custom_rom, ram_seed, ops)| Case {
             machine,
@@ -281,7 +301,7 @@ pub fn replay(run: &mut Run, phase: &str, case: &serde_json::Value) -> Result<()
 }
 
 pub const LEVEL: &str = "exploration";
-pub const RULE: &str = "case = machine x ROM set (embedded / host-supplied images) x history of 1..300 ops over {OUT (C),A to paging-class and near-miss ports with any value, LD (HL),A, LD (nn),HL, PUSH, LD A,(HL)} at window-edge-biased addresses, executed by the emulated CPU one instruction at a time; every read is compared with the reference memory map and after the history all 65536 peeks, every RAM bank and the paging state are compared. non-trivial = an accepted paging write followed by a read through 0x0000-0x3FFF or 0xC000-0xFFFF, or bank 5/2 paged at 0xC000 (alias), or a paging write after lock; distinct = hash of the case";
+pub const RULE: &str = "case = machine x ROM set (embedded / host-supplied images) x history of 1..300 ops over {OUT (C),A to paging-class and near-miss ports with any value, LD (HL),A, LD (nn),HL, PUSH, LD A,(HL), host load_rom of another generated ROM set} at window-edge-biased addresses, executed by the emulated CPU one instruction at a time; every read is compared with the reference memory map and after the history all 65536 peeks, every RAM bank and the paging state are compared. non-trivial = an accepted paging write followed by a read through 0x0000-0x3FFF or 0xC000-0xFFFF, or bank 5/2 paged at 0xC000 (alias), or a paging write after lock; distinct = hash of the case";
 pub const ASSUMPTIONS: &[&str] = &[
     "paging-class ports are generated with A0=1 only (an even address also selects the ULA; which device wins there is outside C06)",
     "instruction stubs are placed at 0x8000 (bank 2 / 48K page 1) through the RAM hook before every op",
